@@ -459,7 +459,7 @@ func (e *SpecEnv) selector(n *ast.SelectorExpr) (SV, error) {
 	// qualified identifier?
 	if id, ok := n.X.(*ast.Ident); ok {
 		if _, isLocal := e.bound[id.Name]; !isLocal {
-			for _, imp := range e.fn.Pkg.Pkg.Imports() {
+			for _, imp := range e.specImports() {
 				if imp.Name() == id.Name {
 					if obj := imp.Scope().Lookup(n.Sel.Name); obj != nil {
 						sp := g.w.prog.Package(imp)
@@ -836,7 +836,7 @@ func (e *SpecEnv) call(n *ast.CallExpr) (SV, error) {
 	if sel, ok := n.Fun.(*ast.SelectorExpr); ok {
 		// package-qualified function?
 		if id, ok := sel.X.(*ast.Ident); ok {
-			for _, imp := range e.fn.Pkg.Pkg.Imports() {
+			for _, imp := range e.specImports() {
 				if imp.Name() == id.Name {
 					sp := g.w.prog.Package(imp)
 					if sp != nil {
@@ -1007,6 +1007,19 @@ func (e *SpecEnv) resolveType(x ast.Expr) (types.Type, error) {
 		return types.NewPointer(el), nil
 	}
 	return nil, fmt.Errorf("cannot resolve spec type %T", x)
+}
+
+// specImports: the packages a specification may name: the imports of the function the clause belongs to, then (for
+// contracts of library functions evaluated in the verified function's unit) the imports of the function under verification.
+func (e *SpecEnv) specImports() []*types.Package {
+	var out []*types.Package
+	if e.fn != nil && e.fn.Pkg != nil {
+		out = append(out, e.fn.Pkg.Pkg.Imports()...)
+	}
+	if e.g != nil && e.g.f != nil && e.g.f.Pkg != nil && (e.fn == nil || e.fn.Pkg != e.g.f.Pkg) {
+		out = append(out, e.g.f.Pkg.Pkg.Imports()...)
+	}
+	return out
 }
 
 func (e *SpecEnv) pkgScope() *types.Scope {
